@@ -96,6 +96,16 @@ func c10Ops() []c10Op {
 			}
 			return dump.Dump(toks) + dump.Dump(tk.Comments)
 		}},
+		{"tokenize-context", func(s string) string {
+			// the context variant on a pooled instance: tokens with their spans, comments, and the located error
+			tk := tokenizer.GetTokenizer()
+			defer tokenizer.PutTokenizer(tk)
+			toks, err := tk.TokenizeContext(context.Background(), []byte(s))
+			if err != nil {
+				return "err:" + codeOf(err) + firstLine(err.Error())
+			}
+			return dump.Dump(toks) + dump.Dump(tk.Comments)
+		}},
 		{"parse", func(s string) string {
 			a, err := gosqlx.Parse(s)
 			if err != nil {
@@ -228,6 +238,7 @@ func c10Inputs(seed int64) []string {
 		"INSERT INTO t (a, b) VALUES (1, 'x'), (2, 'y') ON CONFLICT (a) DO UPDATE SET b = 'z' RETURNING a",
 		"UPDATE t SET a = a + 1 WHERE b = (SELECT MAX(c) FROM u)", "DELETE FROM t WHERE a BETWEEN 1 AND 10",
 		"SELECT a -- trailing comment\nFROM t /* block */ WHERE x = 'it''s'", "select   a ,b from t where 1=1 or SLEEP(5) > 0",
+		"SELECT\t1,\t2", "\tSELECT\ta /* c */\tFROM\tt", "     SELECT a FROM t WHERE 'x", "          SELECT a FROM t -- c", "\t\tSELECT a\n\t\tFROM t WHERE ]",
 		"SELECT FROM", "SELECT a FROM t WHERE ]", "SELECT 'unterminated", "SELECT a FROM t;; SELECT b FROM u", "", ";", " ; ; ", "-- only a comment",
 		"CREATE TABLE t (a INT PRIMARY KEY, b TEXT NOT NULL DEFAULT 'x')", "SELECT RANK() OVER (PARTITION BY a ORDER BY b ROWS BETWEEN 1 PRECEDING AND CURRENT ROW) FROM t",
 		"MERGE INTO t USING s ON t.a = s.a WHEN MATCHED THEN UPDATE SET b = s.b WHEN NOT MATCHED THEN INSERT (a) VALUES (s.a)",
